@@ -104,7 +104,9 @@ func (w *World) execCommit(st *Step) *Violation {
 			break
 		}
 		if fired == 0 {
-			return w.viol("commit.error", "commit (%s, %d workers) failed without any injected fault: (%s) %v", st.Flavour, st.Workers, errCategory(err), err)
+			v := w.viol("commit.error", "commit (%s, %d workers) failed without any injected fault: (%s) %v", st.Flavour, st.Workers, errCategory(err), err)
+			v.Sig = w.commitErrorSig(err)
+			return v
 		}
 		w.Stats.Inc("commit.failed-attempt")
 		var ee *atree.ExternalError
@@ -245,3 +247,24 @@ func (w *World) PendingIDs() (stored, removed []RegID) {
 
 // inBubble is set while a run executes inside a testing/synctest bubble (goroutine accounting differs there).
 var inBubble bool
+
+// commitErrorSig classifies a commit failure by error type and a model-level predicate (never by message text).
+func (w *World) commitErrorSig(err error) string {
+	var ee *atree.EncodingError
+	if errors.As(err, &ee) {
+		for _, cid := range w.Model.SortedCIDs() {
+			c := w.Model.Conts[cid]
+			n := 0
+			w.Model.eachChild(c, func(ch *MCont) {
+				if ch.IsMap {
+					n++
+				}
+			})
+			if n > 255 {
+				return "encoding-error/gt255-child-maps-in-one-container"
+			}
+		}
+		return "encoding-error"
+	}
+	return ""
+}
